@@ -10,6 +10,7 @@ use crate::campaign::{case_summary, config_label, run_lanes};
 use crate::crash::{self, Budget, CrashFailure, CrashStats};
 use crate::env::{self, Evidence, Tier};
 use crate::ops::{case_strategy, Bias, Case};
+use proptest::strategy::{Just, Strategy};
 
 fn bias(id: &str, tier: Tier) -> Bias {
     Bias {
@@ -87,8 +88,8 @@ pub fn run(id: &'static str, tier: Tier, seed: u64, replay: Option<&str>) -> i32
     let last_failure: Arc<Mutex<Option<(CrashFailure, Vec<u8>)>>> = Arc::new(Mutex::new(None));
     let b = bias(id, tier);
     let cases = match id {
-        "C04" => tier.pick(120, 1200),
-        _ => tier.pick(256, 3000),
+        "C04" => tier.pick(64, 1200),
+        _ => tier.pick(208, 3000),
     };
     let (t2, w2, u2, c2, s2, lf) = (totals.clone(), workloads.clone(), unusable.clone(), configs.clone(), samples.clone(), last_failure.clone());
     let check = move |case: &Case, counting: bool| -> Result<(), String> {
@@ -130,8 +131,68 @@ pub fn run(id: &'static str, tier: Tier, seed: u64, replay: Option<&str>) -> i32
             }
         }
     };
-    let found = run_lanes(case_strategy(&b), cases, tier.pick(40, 80), seed, env::threads(), check);
+    // one workload in five writes batches of 60-120 records through a single shard/worker, so a
+    // batch's journal intent spans several 512-byte sectors and can be torn
+    let wide = crate::ops::wide_batch_strategy(vec![1, 2, 3, 3]);
+    let strategy = if id == "C04" { case_strategy(&b) } else { proptest::strategy::Union::new_weighted(vec![(4, case_strategy(&b)), (1, wide)]).boxed() };
+    let mut found = run_lanes(strategy, cases, tier.pick(40, 80), seed, env::threads(), check);
     env::wait_reaper();
+    // C04 only: images synthesised with the codec to force every repair kind (duplicates in both
+    // scan orders, expired newest generations next to older ones, pending markers, active journals)
+    let mut synth_fail: Option<(crate::props::c15::MigCase, String)> = None;
+    if id == "C04" && found.is_none() {
+        let t3 = totals.clone();
+        let lf2 = last_failure.clone();
+        let synth_check = move |(version, items, journal_items, ttl): &(u32, Vec<crate::props::c15::Item>, Vec<u8>, bool), counting: bool| -> Result<(), String> {
+            let img = crate::props::c15::build_synth(*version, items, journal_items, false);
+            let cfg = crate::ops::Config { persistent: true, version: *version, cache: false, ttl: *ttl, dev: crate::ops::DevSize::Tiny(0), max_memory: None, plain_io: true, legacy_plain_meta: false, visible_cpus: 2 };
+            let mut st = CrashStats::default();
+            let spec = crash::ImageSpec { p: 0, subset: vec![], torn: None };
+            let mut rng = env::fnv(&img[16 * 4096..]) | 1;
+            let res = match crash::open_image(&img, &cfg, crate::props::c15::NOW, true, true) {
+                Err(_) => None, // recovery may legitimately refuse a synthesised image (e.g. ambiguous legacy tombstone)
+                Ok(o) => {
+                    st.images += 1;
+                    if o.recovery_entries.iter().any(|e| matches!(e, crate::trace::Entry::Write { .. })) {
+                        st.nontrivial_c04.insert(env::fnv(&img));
+                        st.hit("c04.synth_recovery_wrote");
+                    }
+                    let mut left = 120usize;
+                    crash::check_recovery(&cfg, &img, &o, crate::props::c15::NOW, 2, &mut st, &spec, &mut rng, &budget(tier), &mut left)
+                }
+            };
+            if counting {
+                t3.lock().unwrap().merge(&st);
+            }
+            match res {
+                None => Ok(()),
+                Some(f) => {
+                    let msg = format!("[{}] synthesised image: {}", f.signature, f.msg);
+                    *lf2.lock().unwrap() = Some((f, img));
+                    Err(msg)
+                }
+            }
+        };
+        let strat = (
+            proptest::prelude::prop_oneof![Just(2u32), Just(3u32), Just(3u32), Just(1u32)],
+            proptest::collection::vec(crate::props::c15::item(), 1..24),
+            proptest::collection::vec(proptest::prelude::any::<u8>(), 0..3),
+            proptest::bool::weighted(0.8),
+        )
+            .boxed();
+        if let Some((v, msg)) = run_lanes(strat, tier.pick(320, 6000), 200, seed ^ 0x51, env::threads(), synth_check) {
+            synth_fail = Some((crate::props::c15::MigCase { source: crate::props::c15::Source::Synth { version: v.0, data_blocks: 0, items: v.1, journal_items: v.2, plain_meta: false }, allow_ambiguous: v.3, dest: crate::props::c15::DestKind::Absent }, msg));
+        }
+        env::wait_reaper();
+    }
+    let synth_failed = synth_fail.is_some();
+    if let Some((mc, msg)) = synth_fail {
+        // report through the common path with an empty workload case
+        let dummy = Case { cfg: crate::ops::Config { persistent: true, version: 3, cache: false, ttl: true, dev: crate::ops::DevSize::Tiny(24), max_memory: None, plain_io: true, legacy_plain_meta: false, visible_cpus: 2 }, keys: vec![], t0_offset: 0, ops: vec![] };
+        eprintln!("fxv: C04 synthesised source: {}", serde_json::to_string(&mc).unwrap_or_default());
+        found = Some((dummy, msg));
+    }
+    let _ = synth_failed;
 
     let t = totals.lock().unwrap().clone();
     let nt = match id {
@@ -231,6 +292,89 @@ fn replay_crash(id: &'static str, path: &str, tier: Tier) -> i32 {
         println!("VIOLATION property={id} replay={path}");
     } else {
         println!("replay: the saved case passes on this tree");
+    }
+    code
+}
+
+
+/// C13 (recovery clause): memory accounting is exact after recovering any crash image.
+pub fn accounting_campaign(tier: Tier, seed: u64) -> (i32, Value) {
+    let totals = Arc::new(Mutex::new(CrashStats::default()));
+    let workloads = Arc::new(AtomicU64::new(0));
+    let last_failure: Arc<Mutex<Option<(CrashFailure, Vec<u8>)>>> = Arc::new(Mutex::new(None));
+    let mut b = bias("C03", tier);
+    b.multi_block = 10;
+    b.hostile = 0;
+    let (t2, w2, lf) = (totals.clone(), workloads.clone(), last_failure.clone());
+    let check = move |case: &Case, counting: bool| -> Result<(), String> {
+        let run = crash::run_workload(case);
+        if !run.usable {
+            return Ok(());
+        }
+        let mut st = CrashStats::default();
+        let fp = env::fnv(&serde_json::to_vec(case).unwrap());
+        let mut bud = budget(tier);
+        bud.torn = 0;
+        bud.extra_masks = 1;
+        let f = crash::explore(&run, case, "C13", &bud, &mut st, fp);
+        if counting {
+            w2.fetch_add(1, Ordering::Relaxed);
+            t2.lock().unwrap().merge(&st);
+        }
+        match f {
+            None => Ok(()),
+            Some(f) => {
+                let (durable, volatile) = crate::trace::split_at(&run.entries, f.spec.p);
+                let img = crate::trace::build_image(&run.base, &run.entries, &durable, &volatile, &f.spec.subset, f.spec.torn);
+                let msg = format!("[{}] {}", f.signature, f.msg);
+                *lf.lock().unwrap() = Some((f, img));
+                Err(msg)
+            }
+        }
+    };
+    let found = run_lanes(case_strategy(&b), tier.pick(64, 900), tier.pick(40, 80), seed ^ 0xC13, env::threads(), check);
+    env::wait_reaper();
+    let t = totals.lock().unwrap().clone();
+    let mut code = 0;
+    let mut failure = Value::Null;
+    if let Some((case, msg)) = found {
+        let image = last_failure.lock().unwrap().take().map(|(_, i)| i).unwrap_or_default();
+        let replay = json!({"property": "C13", "engine": "crash_accounting", "signature": "memory-accounting-after-recovery", "message": msg, "case": serde_json::to_value(&case).unwrap(), "image_deflate_hex": hex(&miniz_oxide::deflate::compress_to_vec(&image, 6))});
+        if !env::report_violation("C13", "memory-accounting-after-recovery", &replay) {
+            code = 1;
+            eprintln!("fxv: C13 (recovery of crash images): {msg}");
+        }
+        failure = json!({"message": msg});
+    }
+    let summary = json!({
+        "images": t.images,
+        "workloads": workloads.load(Ordering::Relaxed),
+        "distinct_nontrivial": t.nontrivial_c04.len(),
+        "rule": "crash images of generated persistent workloads (same crash-state model as C03, without tearing) are reopened; right after recovery memory_usage() must equal the sum over the recovered records of (size_of::<Record>() + key length + value length). Non-trivial: an image that held more than one generation of some key.",
+        "failure": failure,
+    });
+    (code, summary)
+}
+
+pub fn replay_accounting(path: &str) -> i32 {
+    let doc: Value = serde_json::from_str(&std::fs::read_to_string(path).expect("read replay")).expect("parse replay");
+    let case: Case = serde_json::from_value(doc["case"].clone()).expect("case");
+    let mut code = 0;
+    if let Some(h) = doc["image_deflate_hex"].as_str() {
+        if let Ok(img) = miniz_oxide::inflate::decompress_to_vec(&unhex(h)) {
+            if let Ok(o) = crash::open_image(&img, &case.cfg, crate::ops::T0 + case.t0_offset, false, false) {
+                if o.contents.memory_usage != o.contents.memory_expected {
+                    println!("replay: memory_usage()={} but the recovered records sum to {}", o.contents.memory_usage, o.contents.memory_expected);
+                    code = 1;
+                }
+            }
+        }
+    }
+    env::wait_reaper();
+    if code == 1 {
+        println!("VIOLATION property=C13 replay={path}");
+    } else {
+        println!("replay: the saved image is accounted exactly on this tree");
     }
     code
 }
